@@ -1,7 +1,7 @@
 (* Replay of recorded supervisor histories through the model (correspondence corr_Sup). *)
 From Coq Require Import List ZArith NArith Bool.
 From PC.Base Require Import Util Assoc.
-From PC.Sup Require Import Model Monitors.
+From PC.Sup Require Import Model Monitors MonC12w.
 Import ListNotations.
 
 Record trace := mkTrace { t_confs : amap pconf; t_ordered : bool; t_evs : list (tid * event) }.
@@ -25,8 +25,9 @@ Definition bad_C04 := bad_mon holds_C04.
 Definition bad_C05 := bad_mon holds_C05.
 Definition bad_C08 := bad_mon holds_C08.
 Definition bad_C09 := bad_mon holds_C09.
+(* C12 is judged on the stop signals of the ordered shutdown's own workers (MonC12w.holds_C12w; theorem C12_workers) *)
 Definition bad_C12 (ts : list trace) : list nat :=
-  failing (fun t => holds_C12 (t_ordered t) (t_confs t) (t_evs t)) ts.
+  failing (fun t => holds_C12w (t_ordered t) (t_confs t) (t_evs t)) ts.
 
 (* position of the first violation of a monitor in one trace (for replay files) *)
 Definition first_bad (m : amap pconf -> obs -> tid * event -> bool) (t : trace) : option nat :=
@@ -55,9 +56,18 @@ Definition badw_C04 := badw_mon mon_C04.
 Definition badw_C05 := badw_mon mon_C05.
 Definition badw_C08 := badw_mon mon_C08.
 Definition badw_C09 := badw_mon mon_C09.
+Fixpoint run3_w (ord : bool) (cs : amap pconf) (o : obs) (g : gst) (evs : list (tid * event)) : option nat :=
+  match evs with
+  | [] => None
+  | e :: r => if mon_w ord cs o g e then run3_w ord cs (obs_step cs o e) (g_step g e) r
+              else Some (fold_left (fun acc (b : bool) => 2 * acc + (if b then 1 else 0)) (windows_of o) 0)
+  end.
 Definition badw_C12 (ts : list trace) : list nat :=
-  flat_map (fun t => match mon_run_w (t_confs t) (mon_C12 (t_ordered t) (t_confs t)) (obs0 (t_confs t)) (t_evs t) with
+  flat_map (fun t => match run3_w (t_ordered t) (t_confs t) (obs0 (t_confs t)) [] (t_evs t) with
                      | Some w => [w] | None => [] end) ts.
+(* how many recorded histories satisfy the side conditions of theorem C12_workers (evidence only) *)
+Definition thm_C12 (ts : list trace) : list nat :=
+  failing (fun t => negb (t_ordered t) || (c12_side (t_confs t) (t_evs t) && negb (W_C12 (final_obs (t_confs t) (t_evs t))))) ts.
 
 (* ---- attribution of a violation to the known windows, per process NAME ------------------------------
    A violation at an event about an instance of name n can only be explained by a window that the
